@@ -491,6 +491,61 @@ pub fn c14_staged(ctx: &mut Ctx, t: &Term) {
       ctx.traces_validated += 1;
     }
   }
+  // a clone and its original that are edited differently afterwards are two independent values:
+  // observed alternately (original, clone, original) each answers like a twin built from its own calls
+  for gap in 0..repls.len() {
+    for observed_before_clone in [true, false] {
+      ctx.evaluations += 1;
+      ctx.transitions += repls.len() as u64 + 4;
+      ctx.count("diverging_clone_histories");
+      let case = || json!({"kind": "staged", "term": serde_json::to_value(t).unwrap(), "clone_after": gap, "observed_before_clone": observed_before_clone});
+      let extra = Repl::new(0, 0, "Q");
+      let mut clone_repls: Vec<Repl> = repls[..gap].to_vec();
+      clone_repls.push(extra.clone());
+      let clone_term = Term::Replace(inner.clone(), clone_repls);
+      let clone_text = model::model_text(&clone_term);
+      let got = observe::guarded(|| {
+        let mut r = ReplaceSource::new(inner.build());
+        for x in &repls[..gap] {
+          crate::term::apply_repl(&mut r, x);
+        }
+        if observed_before_clone {
+          drop(r.source().len());
+        }
+        let mut c = r.clone();
+        for x in &repls[gap..] {
+          crate::term::apply_repl(&mut r, x);
+        }
+        crate::term::apply_repl(&mut c, &extra);
+        let (r, c) = (r.boxed(), c.boxed());
+        let first = observe_all(r.as_ref(), &text);
+        let of_clone = observe_all(c.as_ref(), &clone_text);
+        let again = observe_all(r.as_ref(), &text);
+        (first, of_clone, again, hash_dyn(r.as_ref()), hash_dyn(c.as_ref()))
+      });
+      match got {
+        Err(e) => ctx.violation("panic", "diverging clones".into(), None, case, t.size(), e),
+        Ok((first, of_clone, again, h_r, h_c)) => {
+          let clone_ref = observe_all(clone_term.build().as_ref(), &clone_text);
+          let wrong = if first.answers != reference.answers {
+            Some("the original, observed first")
+          } else if of_clone.answers != clone_ref.answers {
+            Some("the clone")
+          } else if again.answers != reference.answers {
+            Some("the original, observed again after the clone")
+          } else if h_r != h_ref || h_c != hash_dyn(clone_term.build().as_ref()) {
+            Some("a hash")
+          } else {
+            None
+          };
+          if let Some(w) = wrong {
+            ctx.violation("clone_shares_state_with_original", "diverging clones".into(), None, case, t.size(), format!("cloned after {gap} of {} replacements (observed before cloning: {observed_before_clone}), both edited afterwards: {w} answers differently from a twin built from the same calls", repls.len()));
+          }
+          ctx.nontrivial += 1;
+        }
+      }
+    }
+  }
 }
 
 pub fn c14_worker(tier: &str, k: usize, n: usize, ctx: &mut Ctx) {
@@ -803,6 +858,12 @@ pub fn edits(t: &Term) -> Vec<(String, Term)> {
           variants.push(("start", Repl { start: base.start + 1, ..base.clone() }));
         } else {
           variants.push(("start_end", Repl { start: base.start + 1, end: base.end + 1, ..base.clone() }));
+        }
+        // C20 lists "the range" of a replacement among the edits without restricting it: a range whose
+        // end lies BEFORE its start is accepted by the library (source() re-emits the bytes in between,
+        // so it differs observably from the insertion at the same start)
+        if base.start == base.end && base.start > 0 {
+          variants.push(("end_before_start", Repl { end: base.start - 1, ..base.clone() }));
         }
         variants.push(("content", Repl { content: format!("{}c", base.content), ..base.clone() }));
         variants.push((
